@@ -1,15 +1,279 @@
 /-
-  C07 — a chunk-relative view is the chromosome view restricted to the chunk.   (first version; extended below)
+  C07 — a chunk-relative view is the chromosome view restricted to the chunk.
+
+  Property theorems only (helper lemmas live in BioCantor/Proofs/Chunk*.lean).  The model is Model/Chunk.lean: the
+  chunk branches of gene/interval.py, cds.py, transcript.py, feature.py, gene.py, collections.py on top of the C04
+  lift (`chunkDown`, `liftOnce`) and the C05 CDS (`Model.CDS`).  The reference semantics is Spec/Chunk.lean:
+  clips of the chromosome blocks by the chunk window (`Spec.clip`), the position map chunk → chromosome
+  (`Spec.Chunk.unchunkPos`) and THE codons of the CDS (`Spec.cdsCodons`).
+
+  Proved here, for ALL inputs in the stated scope (any number of exons, 0-bp gaps, both strands, chunks on + and −,
+  every window, every frame vector):
+
+    T1  cds_chromosome_answers_unchanged      a CDS built on a chunk holds the chromosome-level members (location,
+                                              start, end, frames) of its chromosome-built twin and answers
+                                              `chromosome_codon_locations` / `num_codons` identically
+        feature_view_unchanged, cds_view_unchanged, transcript_view_unchanged
+                                              what `start`/`end`/`chromosome_location`/`to_dict()` show and what
+                                              `digest_object` receives (feature, CDS, transcript: the classes whose
+                                              digest does not read the chunk-relative location) is the same for the twins
+        transcript_never_drops_its_cds        the `except LocationOverlapException: self.cds = None` branch of the
+                                              transcript constructor is dead: a sliced-out CDS is kept, with an empty
+                                              chunk-relative location
+    T2  chunk_location_is_restriction         `initialize_location` on a chunk: the chunk-relative location, lifted
+        collection_location_is_restriction    back, is exactly the chromosome location clipped by the chunk window
+                                              (block structure kept, strand relative to the chunk's)  [C04-T4]
+    T3  chunk_codons_are_the_inner_codons     `chunk_relative_codon_locations` of a multi-exon CDS (every frame
+                                              vector, programmed frameshifts included), lifted back position by
+                                              position, are exactly the codons of the WHOLE CDS lying fully inside the
+                                              chunk: the frame is kept where the chunk cuts the 5' end
+        chunk_codons_single_exon_frame0       the same for a single-exon CDS with start frame 0 (frame 1 / 2: F-C05a)
+        chunk_branch_scans_inner_codons       the core: lift down, lift back, `_calculate_frame_offset`, scan — on any
+                                              prepared ascending location (the cleaned location or the single exon)
+    T4  no_base_in_chunk_gives_empty_location an interval without a base in the chunk gets the empty location
+        base_in_chunk_gives_location          … and only then
+
+  Resting on the correspondence run (stated at the end, not proved): the sequence clauses (`get_spliced_sequence`,
+  `extract_sequence`, `translate` of the chunk-built twin), `chunk_relative_frames`, the pre-order composition of T1/T2
+  over collection trees, and the identifier flags of collections (F-C07a).
 -/
-import BioCantor.Proofs.ChunkLoc
+import BioCantor.Proofs.ChunkMain
+import BioCantor.Props.C05
 namespace BioCantor.Props.C07
 open BioCantor BioCantor.Spec BioCantor.Spec.Chunk BioCantor.Model BioCantor.Model.Chunk BioCantor.Proofs
 open BioCantor.Proofs.Chunk
 
-/-- **T2** the chunk-relative location of an interval built on a chunk, lifted back, is exactly the part of its
-    chromosome location inside the chunk (block structure kept), on the strand relative to the chunk's. -/
+/-! ### T1 — chromosome-level answers -/
+
+/-- **T1** a CDS built on a chunk (`mkChunkCDS`) and on the whole chromosome (`mkWholeCDS`) from the same arguments:
+    same chromosome location, `start`, `end`, frames; same `chromosome_codon_locations`, same `num_codons`. -/
+theorem cds_chromosome_answers_unchanged (x : CdsD) (letters : List Char) (ch : Model.Chunk.Chunk) (cw : CDS)
+    (k : ChunkCDS) (hw : mkWholeCDS x letters = .ok cw) (hk : mkChunkCDS x ch = .ok k) :
+    k.base.loc = cw.loc ∧ k.base.start = cw.start ∧ k.base.«end» = cw.«end» ∧ k.base.frames = cw.frames ∧
+      chromosomeCodonLocations k = codonLocations cw ∧ numCodonsChunk k = numCodons cw :=
+  cds_twins_agree x letters ch cw k hw hk
+
+/-- **T1** FeatureInterval: `nodeView` = (class, depth, `start`, `end`, `chromosome_location`, the coordinate
+    entries of `to_dict()`, the arguments of `digest_object`). -/
+theorem feature_view_unchanged (f : FeatD) (letters : List Char) (ch : Model.Chunk.Chunk) (depth : Nat) (a b : Node)
+    (ha : mkFeat f (.whole letters) depth = .ok a) (hb : mkFeat f (.chunk ch) depth = .ok b) :
+    nodeView a = nodeView b :=
+  feat_twins_agree f letters ch depth a b ha hb
+
+/-- **T1** CDSInterval as a node (standalone or inside a transcript) -/
+theorem cds_view_unchanged (x : CdsD) (letters : List Char) (ch : Model.Chunk.Chunk) (depth : Nat) (a b : Node)
+    (ha : mkCdsNode x (.whole letters) depth = .ok a) (hb : mkCdsNode x (.chunk ch) depth = .ok b) :
+    nodeView a = nodeView b :=
+  cdsNode_twins_agree x letters ch depth a b ha hb
+
+/-- **T1** TranscriptInterval (coding or not): the transcript node and, when coding, its CDS node -/
+theorem transcript_view_unchanged (t : TxD) (letters : List Char) (ch : Model.Chunk.Chunk) (depth : Nat)
+    (as bs : List Node) (ha : mkTx t (.whole letters) depth = .ok as) (hb : mkTx t (.chunk ch) depth = .ok bs) :
+    as.map nodeView = bs.map nodeView :=
+  (tx_twins_agree t letters ch depth as bs ha hb).1
+
+/-- **T1** the transcript constructor never drops the CDS (on either parent): the result of the CDS part is
+    "non-coding" or the CDS node, never "coding but dropped". -/
+theorem transcript_never_drops_its_cds (t : TxD) (p : Par) (depth : Nat) (r : Option (Option Node))
+    (h : txCds t p depth = .ok r) : r ≠ some none := by
+  rcases txCds_cases t p depth r h with ⟨_, rfl⟩ | ⟨_, n, _, rfl⟩ <;> simp
+
+/-! ### T2 — the chunk-relative location is the chromosome location inside the chunk -/
+
+/-- **T2** feature / transcript / CDS: for every block list the constructors accept (`ValidBlocks`: at least one
+    block, each `start ≤ end`), strand, and chunk. `okChunkDown` (Spec/Lift.lean): empty exactly when no block has a
+    base in the window; otherwise the blocks, lifted back, are exactly the non-empty clips, one block per clip, all
+    inside the chunk, on the strand relative to the chunk's. -/
 theorem chunk_location_is_restriction (bs : List Blk) (st : Strand) (h : ValidBlocks bs) (ch : Model.Chunk.Chunk) :
     okChunkDown (initLoc bs st) ch.w ch.wst (ans (initializeLocation bs st (.chunk ch))) = true :=
   initializeLocation_chunk_ok bs st h ch
+
+/-- **T2** gene / feature collection / annotation collection: the span `[s, e)` on the plus strand -/
+theorem collection_location_is_restriction (s e : Nat) (h : s ≤ e) (ch : Model.Chunk.Chunk) :
+    okChunkDown (.single (s, e) .plus) ch.w ch.wst (ans (spanLocation s e (.chunk ch))) = true :=
+  spanLocation_chunk_ok s e h ch
+
+/-! ### T4 — no base in the chunk ⇔ empty location, never an error -/
+
+/-- **T4** no block of the interval has a base inside the (non-empty, directional) chunk: the location is the
+    empty location — the constructor answers, it does not raise. -/
+theorem no_base_in_chunk_gives_empty_location (bs : List Blk) (st : Strand) (h : ValidBlocks bs)
+    (ch : Model.Chunk.Chunk) (hw : ch.w.1 < ch.w.2) (hd : ch.wst = .plus ∨ ch.wst = .minus)
+    (hno : (locationBlocks (initLoc bs st)).filterMap (clip ch.w) = []) :
+    ans (initializeLocation bs st (.chunk ch)) = some .empty :=
+  okChunkDown_empty _ ch.w ch.wst _ hw hd hno (initializeLocation_chunk_ok bs st h ch)
+
+/-- **T4 (converse)** a CDS with a base inside the chunk has a non-empty chunk-relative location -/
+theorem base_in_chunk_gives_location (k : ChunkCDS) (h : WFChunk k) (x : Nat)
+    (hx : ∃ b ∈ k.base.loc.blocks, b.1 ≤ x ∧ x < b.2) (hin : inW k.chunk.w.1 k.chunk.w.2 x = true) :
+    k.location ≠ .empty :=
+  location_ne_empty k h x hx hin
+
+/-! ### T3 — chunk-relative codons are the whole-chromosome codons fully inside the chunk -/
+
+-- `WFChunk k` (Proofs/ChunkMain.lean): `WFCDS k.base` (C05's scope: directional strand, exons of positive length
+-- that do not overlap, one real frame per exon), the chunk holds a base and has a direction, and `_location` is
+-- the chunk lift of the CDS location.  `descOf k` / `winOf k`: the spec's view of the object and of its chunk.
+-- `okChunkCodons` (Spec/Chunk.lean): every returned location is well formed, lies on the CDS strand as seen from
+-- the chunk, and its positions read 5'→3' and lifted back one by one are the k-th codon of `Spec.cdsCodons` among
+-- those with all three positions inside the window.
+
+/-- **T3** multi-exon CDS, every frame vector (consistent or with programmed frameshifts), every window, chunk on
+    either strand.  Guards = complement of the catalogued deviations: `shallowTrim` (F-C05b), a retained base inside
+    the chunk (F-C07b: none retained; F-C07c: no base at all). -/
+theorem chunk_codons_are_the_inner_codons (k : ChunkCDS) (h : WFChunk k) (hmulti : k.base.loc.blocks.length > 1)
+    (hshallow : shallowTrim (exonWalk k.base.loc (specFrames k.base)) = true)
+    (hsome : (cdsKept k.base.loc (specFrames k.base)).filter (inW k.chunk.w.1 k.chunk.w.2) ≠ []) :
+    okChunkCodons (descOf k) (winOf k) (ans (chunkRelativeCodonLocations k)) = true :=
+  chunkCodons_multi k h hmulti hshallow hsome
+
+/-- **T3** single-exon CDS with start frame 0 (with frame 1 / 2 the pinned code adds the offsets without reducing
+    modulo three and loses codons where the chunk cuts the 5' end: F-C05a, witness below). -/
+theorem chunk_codons_single_exon_frame0 (k : ChunkCDS) (h : WFChunk k) (e : Blk) (hone : k.base.loc.blocks = [e])
+    (hf : k.base.frames = [.ZERO])
+    (hsome : (cdsKept k.base.loc (specFrames k.base)).filter (inW k.chunk.w.1 k.chunk.w.2) ≠ []) :
+    okChunkCodons (descOf k) (winOf k) (ans (chunkRelativeCodonLocations k)) = true :=
+  chunkCodons_single k h e hone hf hsome
+
+/-- **T3 (core)** the chunk branch of both `_prepare_*` functions on a prepared ascending location `L` (positive,
+    non-overlapping blocks; the cleaned location or the single exon) holding a position inside the window: it answers
+    with a chunk-relative location and an offset `o < 3` such that scanning from `o` yields, lifted back, exactly the
+    triples of `bases L` lying inside the window. -/
+theorem chunk_branch_scans_inner_codons (k : ChunkCDS) (L : List Blk)
+    (hst : k.base.strand = .plus ∨ k.base.strand = .minus)
+    (hL2 : L ≠ []) (hL3 : ∀ b ∈ L, b.1 < b.2) (hL4 : L.Pairwise (fun a b => a.2 ≤ b.1))
+    (hw : k.chunk.wst = .plus ∨ k.chunk.wst = .minus) (hwl : k.chunk.w.1 < k.chunk.w.2)
+    (hsome : (bases ⟨L, k.base.strand⟩).filter (inW k.chunk.w.1 k.chunk.w.2) ≠ []) :
+    ∃ (crl : Location) (o : Nat) (ms : List Location), o < 3 ∧
+      chunkBranch k (.compound ⟨L, k.base.strand⟩) = .ok (crl, (o : Int)) ∧
+      (if ((locLen crl : Nat) : Int) - (o : Int) ≥ 3 then scanWindows3 crl (o : Int) else pure []) = .ok ms ∧
+      chunkCodonsMatch ⟨k.chunk.w, k.chunk.wst⟩ k.base.strand
+        ((triples (bases ⟨L, k.base.strand⟩)).filter (fun t => t.all (inW k.chunk.w.1 k.chunk.w.2))) ms = true :=
+  chunk_core k L hst hL2 hL3 hL4 hw hwl hsome
+
+/-! ### non-vacuity: concrete inputs satisfying the hypotheses
+
+  (`List.mergeSort` does not reduce in the kernel, so facts about sorted multi-block lists are shown through the
+  closed forms `initLoc_ascending` / `chunkDown_closed` instead of `decide`.) -/
+
+/-- C05's example CDS (minus strand, 0-bp gap, programmed frameshift) on the minus-strand chunk [3, 18): the chunk
+    cuts the first exon (3' end of the CDS) and the last exon (5' end); `_location` in closed form -/
+def exampleChunkCDS : ChunkCDS :=
+  ⟨C05.exampleCDS,
+   .compound ⟨relBlocks (3, 18) .minus (partsOf [(2, 7), (7, 11), (14, 20)] (3, 18)), strandRelativeTo .minus .minus⟩,
+   ⟨(3, 18), .minus, []⟩⟩
+
+example : exampleChunkCDS.location = .compound ⟨[(0, 4), (7, 11), (11, 15)], .plus⟩ := by decide
+
+theorem exampleChunkCDS_wf : WFChunk exampleChunkCDS := by
+  refine ⟨?_, Or.inr rfl, by decide, ?_⟩
+  · constructor <;> simp [exampleChunkCDS, C05.exampleCDS] <;> decide
+  · show ans (chunkDown (initLoc [(2, 7), (7, 11), (14, 20)] .minus) (3, 18) .minus) = _
+    rw [initLoc_ascending _ _ _ _ (by decide),
+      chunkDown_closed _ .minus (3, 18) .minus (Or.inr rfl) (by decide) (by decide) (by decide) (by decide)]
+    rfl
+example : exampleChunkCDS.base.loc.blocks.length > 1 ∧
+    shallowTrim (exonWalk exampleChunkCDS.base.loc (specFrames exampleChunkCDS.base)) = true ∧
+    (cdsKept exampleChunkCDS.base.loc (specFrames exampleChunkCDS.base)).filter (inW 3 18) ≠ [] := by decide
+-- three codons on the chromosome, two of them fully inside the chunk
+example : cdsCodons exampleChunkCDS.base.loc (specFrames exampleChunkCDS.base) = [[19, 18, 17], [16, 15, 14], [5, 4, 3]] ∧
+    innerCodons (descOf exampleChunkCDS) (winOf exampleChunkCDS) = [[16, 15, 14], [5, 4, 3]] := by decide +kernel
+-- T3 applied: the model answers, and with exactly those two codons
+example : okChunkCodons (descOf exampleChunkCDS) (winOf exampleChunkCDS)
+    (ans (chunkRelativeCodonLocations exampleChunkCDS)) = true :=
+  chunk_codons_are_the_inner_codons exampleChunkCDS exampleChunkCDS_wf (by decide) (by decide) (by decide)
+
+/-- a single-exon CDS with start frame 0 on a chunk that cuts its 5' end -/
+def plainChunkCDS : ChunkCDS :=
+  ⟨{ loc := ⟨[(3, 30)], .plus⟩, start := 3, «end» := 30, frames := [.ZERO], seq := none },
+   .single (0, 6) .plus, ⟨(4, 10), .plus, []⟩⟩
+example : WFChunk plainChunkCDS ∧ plainChunkCDS.base.loc.blocks = [(3, 30)] ∧ plainChunkCDS.base.frames = [.ZERO] ∧
+    (cdsKept plainChunkCDS.base.loc (specFrames plainChunkCDS.base)).filter (inW 4 10) ≠ [] := by
+  refine ⟨⟨?_, Or.inl rfl, by decide, by decide +kernel⟩, rfl, rfl, by decide +kernel⟩
+  constructor <;> simp [plainChunkCDS] <;> decide
+example : ans (chunkRelativeCodonLocations plainChunkCDS) = some [.single (0, 3) .plus, .single (3, 6) .plus] := by
+  decide +kernel
+
+example : ValidBlocks [(1, 4), (6, 10)] := ⟨by simp, by decide⟩
+-- chunk [12, 14) misses the interval: hypotheses of T4
+example : (locationBlocks (initLoc [(1, 4), (6, 10)] .minus)).filterMap (clip (12, 14)) = [] := by
+  rw [initLoc_ascending _ _ _ _ (by decide)]; decide
+-- the twins of T1 exist: a feature, a coding transcript and a CDS on an 8-letter chromosome and on the chunk [2, 6)
+-- of its minus strand (single-block objects: evaluated by the kernel)
+example : (ans (mkFeat ⟨.minus, [(1, 5)]⟩ (.whole "ACGTACGT".toList) 0)).isSome = true ∧
+    (ans (mkFeat ⟨.minus, [(1, 5)]⟩ (.chunk ⟨(2, 6), .minus, "GTAC".toList⟩) 0)).isSome = true := by decide +kernel
+example : (ans (mkTx ⟨.plus, [(1, 7)], [((2, 6), 1)]⟩ (.whole "ACGTACGT".toList) 0)).isSome = true ∧
+    (ans (mkTx ⟨.plus, [(1, 7)], [((2, 6), 1)]⟩ (.chunk ⟨(2, 6), .minus, "GTAC".toList⟩) 0)).isSome = true ∧
+    (ans (txCds ⟨.plus, [(1, 7)], [((2, 6), 1)]⟩ (.chunk ⟨(6, 8), .minus, "AC".toList⟩) 0)).isSome = true := by
+  decide +kernel
+example : (ans (mkWholeCDS ⟨.minus, [((2, 7), 1)]⟩ "ACGTACGT".toList)).isSome = true ∧
+    (ans (mkChunkCDS ⟨.minus, [((2, 7), 1)]⟩ ⟨(3, 8), .plus, "TACGT".toList⟩)).isSome = true ∧
+    (ans (mkCdsNode ⟨.minus, [((2, 7), 1)]⟩ (.whole "ACGTACGT".toList) 1)).isSome = true ∧
+    (ans (mkCdsNode ⟨.minus, [((2, 7), 1)]⟩ (.chunk ⟨(3, 8), .plus, "TACGT".toList⟩) 1)).isSome = true := by
+  decide +kernel
+
+/-! ### stated, not proved (these clauses rest on the correspondence run of harness/props/c07.py)
+
+  Sequences: for a chunk whose letters are the chromosome letters of the window (reverse-complemented on −),
+      okSeq letters d win (cells of `nodeSequence`)          get_spliced_sequence / get_reference_sequence
+      okChunkCdsSeq letters x win (ans (extractSequenceChunk k))   extract_sequence() = letters of the inner codons
+      okChunkProtein letters x win (ans (translateChunk k))        translate()        = their standard-code translation
+    (`extractSequenceChunk` reads `prepareChunk`, i.e. the location and offset of `chunk_branch_scans_inner_codons`;
+    what is missing is the letter-level reading of a chunk-relative location against reverse-complemented letters.)
+
+  Chunk-relative frames: for a CDS in one uninterrupted reading frame (`oneFrame`) whose 5'-most in-chunk block holds
+    the offset,  okChunkFrames x win (ans (chunkRelativeFrames k))  (F-C05h otherwise).  Modelled, compared on every run.
+
+  Collections: `buildNodes d (.whole l) = .ok a → buildNodes d (.chunk ch) = .ok b → okLoc d win (some (b as answer))`
+    and `a.map nodeView = b.map nodeView` for gene / feature collection / annotation collection.  The leaf cases are
+    the theorems above; the span of a collection is min / max over the `start` / `end` of its children (parent
+    independent by T1); the composition over the pre-order listing is not written out.
+
+  Identifier flags: `guidFlags a b` is all-true for feature, CDS and transcript nodes (their `guidKey` is part of
+    `nodeView`); for collections it is false exactly when the chunk-relative location differs (F-C07a, witness below).
+-/
+
+/-! ### witnesses: the modelled current code deviates at the catalogued inputs (findings/C07.json) -/
+
+/-- F-C05a through a chunk: one exon [3,30) +, start frame 1, chunk [4,10) +: the modelled code returns one codon
+    (chunk 3-6 = chromosome 7-10), the property demands two (4-7 and 7-10) -/
+def oneExonChunkCDS : ChunkCDS := ⟨C05.oneExonCDS, .single (0, 6) .plus, ⟨(4, 10), .plus, []⟩⟩
+example : WFChunk oneExonChunkCDS := by
+  refine ⟨?_, Or.inl rfl, by decide, by decide +kernel⟩
+  constructor <;> simp [oneExonChunkCDS, C05.oneExonCDS] <;> decide
+example : ans (chunkRelativeCodonLocations oneExonChunkCDS) = some [.single (3, 6) .plus] := by decide +kernel
+example : innerCodons (descOf oneExonChunkCDS) (winOf oneExonChunkCDS) = [[4, 5, 6], [7, 8, 9]] := by decide +kernel
+example : okChunkCodons (descOf oneExonChunkCDS) (winOf oneExonChunkCDS)
+    (ans (chunkRelativeCodonLocations oneExonChunkCDS)) = false := by decide +kernel
+
+/-- F-C07b: exons [6,8) [14,16) −, frames [0,2], chunk [15,78): the chunk holds the CDS base 15, which the frame
+    walk trims; the cleaned location lifts to EmptyLocation and the lift back raises -/
+def trimmedChunkCDS : ChunkCDS :=
+  ⟨{ loc := ⟨[(6, 8), (14, 16)], .minus⟩, start := 6, «end» := 16, frames := [.ZERO, .TWO], seq := none },
+   .compound ⟨[(0, 1)], .minus⟩, ⟨(15, 78), .plus, []⟩⟩
+example : WFChunk trimmedChunkCDS := by
+  refine ⟨?_, Or.inl rfl, by decide, ?_⟩
+  · constructor <;> simp [trimmedChunkCDS] <;> decide
+  · show ans (chunkDown (initLoc [(6, 8), (14, 16)] .minus) (15, 78) .plus) = _
+    rw [initLoc_ascending _ _ _ _ (by decide),
+      chunkDown_closed _ .minus (15, 78) .plus (Or.inl rfl) (by decide) (by decide) (by decide) (by decide)]
+    rfl
+example : cdsKept trimmedChunkCDS.base.loc (specFrames trimmedChunkCDS.base) = [7, 6] := by decide
+example : ans (chunkRelativeCodonLocations trimmedChunkCDS) = none := by decide +kernel
+example : okChunkCodons (descOf trimmedChunkCDS) (winOf trimmedChunkCDS) (some []) = true := by decide +kernel
+
+/-- F-C07c: a CDS without a base in the chunk answers "chunk-relative" questions in chromosome coordinates -/
+def slicedOutCDS : ChunkCDS := ⟨C05.plainCDS, .empty, ⟨(4, 5), .plus, []⟩⟩
+example : WFChunk slicedOutCDS := by
+  refine ⟨?_, Or.inl rfl, by decide, by decide +kernel⟩
+  constructor <;> simp [slicedOutCDS, C05.plainCDS] <;> decide
+example : ans (chunkRelativeCodonLocations slicedOutCDS) = some [.single (1, 4) .plus] := by decide +kernel
+example : innerCodons (descOf slicedOutCDS) (winOf slicedOutCDS) = [] := by decide +kernel
+
+/-- F-C07a: the digest of a gene reads the chunk-relative location: gene [1,10) (one transcript) on chunk [2,9) -/
+example : ans (do
+    let a ← buildNodes (.gene ⟨[⟨.plus, [(1, 10)], []⟩]⟩) (.whole "ACGTACGTACGTAC".toList)
+    let b ← buildNodes (.gene ⟨[⟨.plus, [(1, 10)], []⟩]⟩) (.chunk ⟨(2, 9), .plus, "GTACGTA".toList⟩)
+    pure (guidFlags a b, dictEqual a b) : R (List Bool × Bool)) = some ([false, true], true) := by decide +kernel
 
 end BioCantor.Props.C07
